@@ -185,8 +185,11 @@ class Ctx:
         if finder:
             b = self.native()
             finders = finder if isinstance(finder, list) else [finder]
-            for fd in finders:
-                rc, out, err, secs = run([b, 'find', fd['module'], fd['check'], fd['alphabet'].hex(), str(fd['maxlen'])], timeout=fd.get('timeout', 300))
+            want = self._real_location(ob)
+            attempts = [(fd, want) for fd in finders] if want else []
+            attempts += [(fd, '') for fd in finders]
+            for fd, wnt in attempts:
+                rc, out, err, secs = run([b, 'find', fd['module'], fd['check'], fd['alphabet'].hex(), str(fd['maxlen']), fd.get('prefix', b'').hex(), wnt], timeout=fd.get('timeout', 300))
                 self.t('native-finder', secs)
                 try:
                     js = json.loads(out.strip().splitlines()[-1])
@@ -199,6 +202,47 @@ class Ctx:
                     break
         ob.witness = wit
         self._record_violation(ob)
+
+    def _real_location(self, ob):
+        """'file.rs:LINE' of the real statement a Verus body obligation points at (or '')."""
+        m = re.search(r'/code: (.*)$', ob.name)
+        if not m or ob.unit is None:
+            return ''
+        code = m.group(1).strip()
+        for fs in ob.unit.fns:
+            if fs.name != (ob.fn or '').split('#')[0]:
+                continue
+            try:
+                lines = open(self.scratch.path(fs.file), encoding='utf-8').read().split('\n')
+            except Exception:
+                return ''
+            hits = [i + 1 for i, ln in enumerate(lines) if ' '.join(ln.split()) == code]
+            if len(hits) == 1:
+                return '%s:%d' % (fs.file, hits[0])
+        return ''
+
+    # ------------------------------------------------------------------ native bounded cross-check
+    def native_enum(self, name, fd, desc):
+        """Exhaustive enumeration of short inputs on the real code against an executable contract.
+        Reported as a *bounded* check (never counted as proved)."""
+        b = self.native()
+        rc, out, err, secs = run([b, 'find', fd['module'], fd['check'], fd['alphabet'].hex(), str(fd['maxlen']), fd.get('prefix', b'').hex()], timeout=fd.get('timeout', 900))
+        self.t('native-enum', secs)
+        try:
+            js = json.loads(out.strip().splitlines()[-1])
+        except Exception:
+            self.undecided.append('native-enum %s: no result (%s)' % (name, (out + err)[-200:]))
+            return
+        bound = 'all strings %r + up to %d symbols over %r' % (fd.get('prefix', b''), fd['maxlen'], fd['alphabet'])
+        if js.get('found'):
+            inp = bytes.fromhex(js['input'])
+            ob = self.add(Obligation(self.prop, 'native/%s' % name, 'native-eval', 'bounded', 'failed', seconds=secs, bound=bound, detail=desc + ' FAILED: ' + str(js.get('message'))))
+            ob.witness = dict(input_hex=js['input'], input_text=inp.decode('utf-8', 'replace'), observed=js.get('message'), via='native exhaustive enumeration', replay=['one', fd['module'], fd['check'], js['input']])
+            self._record_violation(ob)
+        elif 'tried' in js:
+            self.add(Obligation(self.prop, 'native/%s' % name, 'native-eval', 'bounded', 'discharged', seconds=secs, bound=bound, detail=desc + ' [%d inputs]' % js['tried']))
+        else:
+            self.undecided.append('native-enum %s: %s' % (name, js))
 
     # ------------------------------------------------------------------ Kani
     def kani(self, package, specs, jobs=14):
